@@ -201,6 +201,11 @@ func (a *Action) Exec(bs map[string]interface{}) ExecResult {
 
 func isVar(s string) bool { return strings.HasPrefix(s, "?") }
 
+// Uncertain is set when a match met a case the reference does not decide (a
+// variable bound to a structured value compared with a different value).  Step
+// resets it and answers Unspecified when it was set.
+var Uncertain bool
+
 func num(x interface{}) (float64, bool) {
 	switch v := x.(type) {
 	case float64:
@@ -256,6 +261,17 @@ func matchInto(pat, fact interface{}, bs map[string]interface{}) bool {
 			return ok
 		}
 		if bound, have := bs[p]; have {
+			switch bound.(type) {
+			case map[string]interface{}, []interface{}:
+				// A structured value bound earlier is re-used as a pattern by the
+				// implementation (partial matching); the reference only knows the
+				// clear cases: identical values match, anything else is left open.
+				if Canon(bound) == Canon(fact) {
+					return true
+				}
+				Uncertain = true
+				return false
+			}
 			return matchInto(bound, fact, bs)
 		}
 		bs[p] = fact
@@ -367,6 +383,15 @@ func inequality(v string, fact interface{}, bs map[string]interface{}) (ok, used
 
 // Step is the documented transition rule.  pending == nil means no message.
 func (s *Spec) Step(st State, pending interface{}) StepResult {
+	Uncertain = false
+	r := s.step(st, pending)
+	if Uncertain && r.Kind != Unspecified {
+		return StepResult{Kind: Unspecified, Class: "structured-bound-variable", ActionFailed: r.ActionFailed, ActionCompleted: r.ActionCompleted}
+	}
+	return r
+}
+
+func (s *Spec) step(st State, pending interface{}) StepResult {
 	n, have := s.Nodes[st.Node]
 	if !have {
 		if st.Node == "error" && !s.NoAutoErrorNode {
